@@ -290,7 +290,7 @@ Proof.
         unfold phase_of, hs_state, abs_frame, RS.request_step. cbn [RS.f_kind RS.f_es]. rewrite KK, X, Fin. cbn.
         destruct (flag_has (sf_flags fr) FL_ES); reflexivity. }
       assert (B13 : sf_kind fr = KRst -> st_responded s3 = true -> st_handlerRunning s3 = false -> has_more_to_send s3 = true ->
-                    (st_pending s3 = [] \/ (0 < zmin (st_window s3) (sc_clientWindow CA__))%Z) ->
+                    (st_pending s3 = [] \/ (0 < zmin (st_window s3) (sc_clientWindow c3))%Z) ->
                     known_deviation hstate c s (RFrame fr) = true) by (intro Y; congruence).
       exact (after_ok hstate dec_field enc_field enc_set_max cfg c s ph fr ec' c2 l' h' c3 s3 HS Hsl SQ Od HB KC HE B1 Id3 B2 B3 B4 B5 B6 B7 B8 V B9 B10 B11 B12 B13 E).
   - (* half-closed (remote): STREAM_CLOSED *)
@@ -385,7 +385,7 @@ Proof.
     { intros _. rewrite Hph, phase_of_handle. unfold phase_of, hs_state, abs_frame, RS.request_step. cbn [RS.f_kind]. rewrite KK, Fin.
       destruct XS as [[X _]|[X _]]; rewrite X; reflexivity. }
     assert (B13 : sf_kind fr = KRst -> st_responded st = true -> st_handlerRunning st = false -> has_more_to_send st = true ->
-                    (st_pending st = [] \/ (0 < zmin (st_window st) (sc_clientWindow CA__))%Z) ->
+                    (st_pending st = [] \/ (0 < zmin (st_window st) (sc_clientWindow c2))%Z) ->
                   known_deviation hstate c s (RFrame fr) = true) by (intro Y; congruence).
     exact (after_ok hstate dec_field enc_field enc_set_max cfg c s ph fr ec' c2 l' h' c2 st HS Hsl SQ Od HB KC (hf_eff_refl hstate c2) DI
              (F_id _ _ _ _ _ _ _ SF) B2 (F_x _ _ _ _ _ _ _ SF) B4 B5 (F_wr _ _ _ _ _ _ _ SF) (F_resp _ _ _ _ _ _ _ SF) (F_send _ _ _ _ _ _ _ SF)
@@ -445,7 +445,7 @@ Proof.
         destruct XS as [[X _]|[X _]]; rewrite X; reflexivity. }
       assert (B13 : sf_kind fr = KRst -> st_responded (set_window st w) = true -> st_handlerRunning (set_window st w) = false ->
                     has_more_to_send (set_window st w) = true ->
-                    (st_pending (set_window st w) = [] \/ (0 < zmin (st_window (set_window st w)) (sc_clientWindow CA__))%Z) -> known_deviation hstate c s (RFrame fr) = true) by (intro Y; congruence).
+                    (st_pending (set_window st w) = [] \/ (0 < zmin (st_window (set_window st w)) (sc_clientWindow c2))%Z) -> known_deviation hstate c s (RFrame fr) = true) by (intro Y; congruence).
       exact (after_ok hstate dec_field enc_field enc_set_max cfg c s ph fr ec' c2 l' h' c2 (set_window st w) HS Hsl SQ Od HB KC (hf_eff_refl hstate c2) DI
                (F_id _ _ _ _ _ _ _ SF) B2 (F_x _ _ _ _ _ _ _ SF) B4 B5 (F_wr _ _ _ _ _ _ _ SF) (F_resp _ _ _ _ _ _ _ SF) (F_send _ _ _ _ _ _ _ SF)
                V B9 B10 B11 B12 B13 E).
@@ -645,7 +645,7 @@ Proof.
       assert (B12 : st_state (handle_state fr s3) <> SClosed -> RS.request_step (ph (sf_sid fr)) (abs_frame fr) = phase_of (handle_state fr s3)).
       { intros _. rewrite phase_of_handle, C2, Fin3. apply Hphase. reflexivity. }
       assert (B13 : sf_kind fr = KRst -> st_responded s3 = true -> st_handlerRunning s3 = false -> has_more_to_send s3 = true ->
-                    (st_pending s3 = [] \/ (0 < zmin (st_window s3) (sc_clientWindow CA__))%Z) ->
+                    (st_pending s3 = [] \/ (0 < zmin (st_window s3) (sc_clientWindow c3))%Z) ->
                     known_deviation hstate c s (RFrame fr) = true) by (intro Y; destruct KK; congruence).
       exact (after_ok hstate dec_field enc_field enc_set_max cfg c s ph fr ec' c2 l' h' c3 s3 HS Hsl SQ Od HB KC HE B1 Id3 B2 B3 B4 B5 B6 B7 Snd3 V Hmp B10 B11 B12 B13 E).
 Qed.
